@@ -27,11 +27,10 @@ def design(ctx, notes):
                 ("Notices_mc_live2.cfg", False, [])]
         controls = [("Notices_mc_nobump.cfg", "invariant", "ExactlyOnce")]
     else:
-        runs = [("Notices_mc_wide3.cfg", True, ["Add", "Poll", "Tick"]),
+        runs = [("Notices_mc_wide3.cfg", False, []),
                 ("Notices_mc_deep4.cfg", False, []),
                 ("Notices_mc_deep6.cfg", False, []),
-                ("Notices_mc_narrow6.cfg", False, []),
-                ("Notices_mc_wait.cfg", True, ["Add", "Poll", "WaitStart", "WakeCheck", "WaitTimeout"]),
+                ("Notices_mc_wait.cfg", True, ["Add", "Poll", "Tick", "WaitStart", "WakeCheck", "WaitTimeout"]),
                 ("Notices_mc_live.cfg", False, [])]
         controls = [("Notices_mc_nobump.cfg", "invariant", "ExactlyOnce"),
                     ("Notices_mc_addat.cfg", "invariant", "ExactlyOnce"),
@@ -148,9 +147,9 @@ def run(ctx):
 
     # ------------------------------------------------------------------ 2. T->I: replay TLC behaviours
     sims = []
-    simcfgs = [("Notices_sim.cfg", ctx.pick(200, 3000), ctx.pick(24, 36))]
+    simcfgs = [("Notices_sim.cfg", ctx.pick(200, 2000), ctx.pick(24, 36))]
     if not ctx.quick:      # quick binds options.Time additions through the I->T histories only
-        simcfgs.append(("Notices_sim_addat.cfg", 1000, 30))
+        simcfgs.append(("Notices_sim_addat.cfg", 500, 30))
     for cfg, num, depth in simcfgs:
         res = tlc.run(ctx, "Notices", cfg, spec_dir=_SPEC["dir"], simulate={"num": num, "file": True}, depth=depth, seed=ctx.seed, workers=1,
                       timeout=ctx.pick(600, 2400), name="sim_" + cfg[:-4])
@@ -180,8 +179,8 @@ def run(ctx):
     ctx.log("T->I: %d behaviours replayed, %d steps compared, %d mismatching behaviours" % (len(replay_scripts), ncmp, len(bad)))
 
     # ------------------------------------------------------------------ 3. I->T: seeded random real histories
-    scripts = N.gen_scripts(ctx.seed, ctx.pick(250, 12000))
-    scripts_addat = N.gen_scripts(ctx.seed, ctx.pick(80, 2500), addat=True, first_case=500000)
+    scripts = N.gen_scripts(ctx.seed, ctx.pick(250, 6000))
+    scripts_addat = N.gen_scripts(ctx.seed, ctx.pick(80, 1500), addat=True, first_case=500000)
     by_case = {s["case"]: s for s in scripts + scripts_addat + replay_scripts}
     _, ev_main = N.exec_scripts(ctx, tb, scripts, "itot")
     _, ev_addat = N.exec_scripts(ctx, tb, scripts_addat, "itot_addat")
@@ -205,7 +204,7 @@ def run(ctx):
     dead = set(expired)
 
     # ------------------------------------------------------------------ 4. daemon: GET /v2/notices ownership rule
-    dcases = N.gen_daemon_cases(ctx.seed, ctx.pick(6, 150), first_case=900000)
+    dcases = N.gen_daemon_cases(ctx.seed, ctx.pick(6, 100), first_case=900000)
     _, ev_daemon = N.exec_daemon(ctx, f_dmn.result(), dcases)
     pool.shutdown()
     dreq = {c["case"]: c for c in dcases}
